@@ -81,6 +81,19 @@ def verify_function(reg: Registry, c: Contract) -> FnReport:
         if c.loops and max(c.loops) >= n_loops and not all(l.iter_src is not None for l in c.loops.values()):
             raise Unsupported('contract names loop %d but the source has %d loops' % (max(c.loops), n_loops))
         st = entry_state(ex, c, fs.node)
+        if c.param_defaults:
+            import ast as _ast
+            a_ = fs.node.args
+            pos = a_.posonlyargs + a_.args
+            dflt = dict(zip([x.arg for x in pos[len(pos) - len(a_.defaults):]], a_.defaults))
+            dflt.update({x.arg: d for x, d in zip(a_.kwonlyargs, a_.kw_defaults) if d is not None})
+            for pn, want in c.param_defaults.items():
+                try:
+                    got = _ast.literal_eval(dflt[pn]) if pn in dflt else '<no default>'
+                except Exception:
+                    got = '<not a constant>'
+                same = (got == want and type(got) is type(want))
+                ex.oblige('default.%s' % pn, st, z3.BoolVal(same), 'post', 'the default of parameter %s is %r in the contract, %r in the source' % (pn, want, got))
         outs = ex.exec_block(fs.node.body, st)
         for o in outs:
             ex.exits.append(Exit('return', o, value=SV_NONE))
@@ -97,6 +110,8 @@ def verify_function(reg: Registry, c: Contract) -> FnReport:
                 if c.returns is not None and c.returns.kind not in ('none', 'tuple'):
                     from .calls import adapt
                     res = adapt(ex, res, c.returns, stx, 'return value')
+                if c.returns is not None and c.returns.kind == 'tuple' and (res.kind != 'tuple' or len(res.elts) != len(c.returns.elts or [])):
+                    raise Unsupported('an exit returns %s where the contract declares a %d-tuple' % (res.kind, len(c.returns.elts or [])))
                 post = CCtx(h0, stx.h, ex.args, ex.ghosts, res)
                 for (nm, f) in c.ensures(post):
                     ex.oblige('post.%s@exit%d' % (nm, idx), stx, f, 'post')
